@@ -10,6 +10,9 @@ use kit::report::{Report, Tier, Violation};
 use kit::runner::Ctx;
 use std::time::Instant;
 
+#[global_allocator]
+static GLOBAL: kit::alloc::CapAlloc = kit::alloc::CapAlloc;
+
 pub fn verif_root() -> String {
     std::env::var("VERIF_ROOT").unwrap_or_else(|_| "/verif".to_string())
 }
@@ -23,6 +26,9 @@ fn main() {
     let args: Vec<String> = std::env::args().skip(1).collect();
     if args.is_empty() {
         usage();
+    }
+    if args[0] == "--worker" {
+        props::c14::worker_main();
     }
     let prop_id = args[0].clone();
     let mut tier = match std::env::var("VERIF_TIER").ok().as_deref() {
